@@ -344,6 +344,55 @@ fn boundary_sweep(id: i32, cp: CodePage, thorough: bool) -> (u64, Vec<V>) {
     (n, vs)
 }
 
+/// Long strings: a character of every class straddling the encoded offsets
+/// 2^k (k = 11..17) after an ASCII or multi-byte filling.
+fn long_boundary_sweep(id: i32, cp: CodePage, thorough: bool) -> (u64, Vec<V>) {
+    let mut n = 0u64;
+    let mut vs: Vec<V> = Vec::new();
+    let classes = class_chars(id);
+    let fills: Vec<char> = classes.iter().filter(|c| !c.0.starts_with("unmappable")).map(|c| c.1).take(if thorough { 4 } else { 2 }).collect();
+    let targets: Vec<usize> = if thorough { vec![2048, 4096, 8192, 16384, 32768, 65536, 131072] } else { vec![8192, 65536] };
+    for fill in &fills {
+        let fenc = cp.encode(&fill.to_string());
+        for &target in &targets {
+            for delta in 0..4usize {
+                let want = target - delta;
+                let nf = want / fenc.len();
+                let pad = want - nf * fenc.len();
+                let mut s = String::with_capacity(want + 16);
+                let mut concat: Vec<u8> = Vec::with_capacity(want + 16);
+                for _ in 0..pad {
+                    s.push('a');
+                    concat.push(b'a');
+                }
+                for _ in 0..nf {
+                    s.push(*fill);
+                    concat.extend_from_slice(&fenc);
+                }
+                for (cname, c) in &classes {
+                    let mut s2 = s.clone();
+                    s2.push(*c);
+                    s2.push('z');
+                    let mut c2 = concat.clone();
+                    c2.extend(cp.encode(&c.to_string()));
+                    c2.push(b'z');
+                    n += 1;
+                    match catch(|| cp.encode(&s2)) {
+                        Err(pn) => vs.push(V { sig: format!("encode-panic:cp{}:{}", id, panic_site(&pn)), detail: format!("code page {}: encoding {} bytes + {} panicked: {}", id, want, cname, pn), replay: json!({"kind":"c14-long","cp":id,"prefix_bytes":want}) }),
+                        Ok(got) => {
+                            if got != c2 && vs.len() < 4 {
+                                let at = got.iter().zip(c2.iter()).position(|(a, b)| a != b).unwrap_or(got.len().min(c2.len()));
+                                vs.push(V { sig: format!("not-concatenation:cp{}:long-string", id), detail: format!("code page {}: {} encoded bytes of filling, then a {} character: encode(s) has {} bytes, the concatenation of the characters' encodings {} (first difference at byte {})", id, want, cname, got.len(), c2.len(), at), replay: json!({"kind":"c14-long","cp":id,"prefix_bytes":want}) });
+                            }
+                        }
+                    }
+                }
+            }
+        }
+    }
+    (n, vs)
+}
+
 /// Every string of up to `max` characters over a small adversarial alphabet:
 /// characters that look like an escape for an unmappable character ("&#1;",
 /// "?"), unmappable characters themselves, and a multi-byte character.  The
@@ -506,8 +555,10 @@ pub fn run(tier: Tier) -> i32 {
             vs.extend(v2);
             let (nb, mut v3) = boundary_sweep(*id, cp, thorough);
             let (ns, v4) = short_string_sweep(*id, cp, thorough);
-            let nb = nb + ns;
+            let (nl, v5) = long_boundary_sweep(*id, cp, thorough);
+            let nb = nb + ns + nl;
             v3.extend(v4);
+            v3.extend(v5);
             vs.extend(v3);
             (*id, st, nd, nb, vs)
         })
@@ -546,7 +597,7 @@ pub fn run(tier: Tier) -> i32 {
     rep.set("ids_checked", nid);
     rep.set("per_page", serde_json::Value::Object(per_page.into_iter().collect()));
     rep.set("exhaustive", true);
-    rep.set("rule", "all 1,112,064 Unicode scalar values x 26 code pages (encode, decode back, compare with the named encoding); every 1- and 2-byte sequence and lead-restricted 3-byte sequences per page for decode; strings with every prefix length around the 1024-byte internal buffer x every character class at the boundary; every string of <= 5 (thorough 6) characters over {a & # 1 ; ? e U+0301 U+0327, (x, U+FEFF), a multi-byte character, an unmappable BMP and an unmappable astral character} against the concatenation of its characters' encodings; from_id over +-70000 and range ends (thorough: all 2^32). distinct_nontrivial = (character, page) pairs that have a round-tripping non-'?' encoding");
+    rep.set("rule", "all 1,112,064 Unicode scalar values x 26 code pages (encode, decode back, compare with the named encoding); every 1- and 2-byte sequence and lead-restricted 3-byte sequences per page for decode; strings with every prefix length around the 1024-byte internal buffer x every character class at the boundary; the same around 8 Ki and 64 Ki encoded bytes (thorough: every 2^k, k = 11..17); every string of <= 5 (thorough 6) characters over {a & # 1 ; ? e U+0301 U+0327, (x, U+FEFF), a multi-byte character, an unmappable BMP and an unmappable astral character} against the concatenation of its characters' encodings; from_id over +-70000 and range ends (thorough: all 2^32). distinct_nontrivial = (character, page) pairs that have a round-tripping non-'?' encoding");
     rep.sample(json!({"cp": 932, "char": "あ", "lib_bytes": CodePage::from_id(932).map(|c| c.encode("あ")), "ref_bytes": ref_encode(932, "あ")}));
     rep.sample(json!({"cp": 1252, "bytes": [0xFF, 0xFE, 0x61, 0x00], "lib": CodePage::from_id(1252).map(|c| c.decode(&[0xFF, 0xFE, 0x61, 0x00])), "ref": ref_decode(1252, &[0xFF, 0xFE, 0x61, 0x00])}));
     rep.finish()
